@@ -416,7 +416,7 @@ pub fn run(tier: Tier) -> i32 {
     let mut rep = Report::new("C19", tier, "model_checking");
     let cases: Vec<Case> = tier.pick(
         vec![Case { waiters: 2, early: 0, submits: 1, abandon_first_wait: false }, Case { waiters: 1, early: 1, submits: 1, abandon_first_wait: false }, Case { waiters: 1, early: 0, submits: 2, abandon_first_wait: false }, Case { waiters: 2, early: 0, submits: 1, abandon_first_wait: true }, Case { waiters: 1, early: 1, submits: 1, abandon_first_wait: true }],
-        vec![Case { waiters: 2, early: 0, submits: 1, abandon_first_wait: false }, Case { waiters: 1, early: 1, submits: 1, abandon_first_wait: false }, Case { waiters: 2, early: 1, submits: 1, abandon_first_wait: false }, Case { waiters: 3, early: 0, submits: 1, abandon_first_wait: false }, Case { waiters: 2, early: 0, submits: 2, abandon_first_wait: false }, Case { waiters: 3, early: 1, submits: 1, abandon_first_wait: false } , Case { waiters: 2, early: 0, submits: 1, abandon_first_wait: true }, Case { waiters: 2, early: 1, submits: 1, abandon_first_wait: true }, Case { waiters: 1, early: 0, submits: 2, abandon_first_wait: true }],
+        vec![Case { waiters: 2, early: 0, submits: 1, abandon_first_wait: false }, Case { waiters: 1, early: 1, submits: 1, abandon_first_wait: false }, Case { waiters: 2, early: 1, submits: 1, abandon_first_wait: false }, Case { waiters: 3, early: 0, submits: 1, abandon_first_wait: false }, Case { waiters: 2, early: 0, submits: 2, abandon_first_wait: false } , Case { waiters: 2, early: 0, submits: 1, abandon_first_wait: true }, Case { waiters: 2, early: 1, submits: 1, abandon_first_wait: true }, Case { waiters: 1, early: 0, submits: 2, abandon_first_wait: true }],
     );
     let mut total = 0u64;
     let mut cps = 0u64;
